@@ -92,6 +92,8 @@ def value_options(variant, n):
         opts.append(default_body(variant, n))
     if n == 'o':
         opts += [{'k': 'alias', 'n': 'n'}, {'k': 'roles', 'r': ['old']}]
+    elif variant != 'plain' and {'k': 'roles', 'r': ['old']} not in opts:
+        opts.append({'k': 'roles', 'r': ['old']})         # an override under the current name that equals the PREVIOUS default
     return opts
 
 
@@ -105,12 +107,24 @@ def spell(body, rng, allow_list=True):
     embedded double quote)"""
     if body['k'] == 'alias':
         return rng.choice(['rule:' + body['n'], '(rule:%s)' % body['n']])
+    # checks that hold for every request of the harness (target zz = 'q', bs = one backslash), written with
+    # double quotes / a backslash: text that has to survive being re-quoted by a tool
+    TRUE_Q = ['"q":%(zz)s', "'q':%(zz)s", '"\\\\":%(bs)s']
     if body['k'] == 'any':
+        if allow_list is not None and rng.random() < 0.4:
+            t = rng.choice(TRUE_Q)
+            return rng.choice([t, [[t]], [t]]) if allow_list else t
         return rng.choice(['', '@', []]) if allow_list else rng.choice(['', '@'])
     leaves = ['role:' + SPELL.get(r, r) for r in body['r']]
     if not leaves:
         return '!'
-    style = rng.randrange(6)
+    style = rng.randrange(8)
+    if style == 6 and allow_list:
+        t = rng.choice(TRUE_Q)
+        return [[x, t] for x in leaves]                     # list-of-lists with a member that needs quoting
+    if style == 7 and allow_list is not None:
+        t = rng.choice(TRUE_Q)
+        return ' or '.join('(%s and %s)' % (t, x) for x in leaves)
     if style == 0 and allow_list:
         return [[x] for x in leaves]
     if style == 1 and allow_list:
@@ -157,7 +171,7 @@ def enforcer_on(main_path, dirs, variant):
 def decisions(e):
     out = {}
     for n in NAMES:
-        out[n] = [r for r in ROLES if e.enforce(n, {'zz': 'q'}, {'roles': [SPELL.get(r, r)]})]
+        out[n] = [r for r in ROLES if e.enforce(n, {'zz': 'q', 'bs': '\\'}, {'roles': [SPELL.get(r, r)]})]
     return out
 
 
